@@ -94,11 +94,6 @@ Proof. exact ex_flavor_history_ok. Qed.
 Print Assumptions C19_flavor_session_nonvacuous.
 
 (* (4) Outside the guards the faithful model violates the specification: the known findings. *)
-Theorem C19_symbol_unquoted_refuted :
-  loadable (L [Sym "a"; Sym "b"]) = false /\ load_form (L [Sym "a"; Sym "b"]) = Ok (L [Sym "list"; Sym "a"; Sym "b"])
-  /\ reload (L [Sym "a"; Sym "b"]) = Err (EUnbound "a").
-Proof. exact symbol_unquoted_refuted. Qed.
-Print Assumptions C19_symbol_unquoted_refuted.
 Theorem C19_adjustable_lost_refuted :
   loadable (Vec [Fix 1; Fix 2] T false) = false /\ reload (Vec [Fix 1; Fix 2] T false) = Ok (Vec [Fix 1; Fix 2] T true).
 Proof. exact adjustable_lost_refuted. Qed.
